@@ -1,5 +1,5 @@
 """C06 — scripts cannot crash the host; the VM stays usable (E3a panic containment, E3b stack reset)."""
-from . import e3a, e3b, e3c, e3d
+from . import e3a, e3b, e3c, e3d, e3e
 
 CRATES = {"gluon_vm", "gluon", "gluon_c_api", "gluon_base", "gluon_repl"}
 
@@ -20,4 +20,5 @@ def run(fb, rep, tier, cfg):
     e3b.run(fb, rep)
     e3c.run(fb, rep)
     e3d.run(fb, rep)
+    e3e.run(fb, rep)
     e3a.run(fb, rep, tier)
